@@ -69,14 +69,12 @@ def _get_mtime_from_changes(
     mtimes: dict[str, float] = {}
     mtimes.update(updated_mtimes)
 
-    sep = fs.sep
-
     for change in diff.unchanged:
         key = change.old.key
         if key == ROOT:
             continue
 
-        entry_path = sep.join((path, *key))
+        entry_path = fs.join(path, *key)
         if entry_path in mtimes:
             continue
         meta = change.old.meta
